@@ -77,3 +77,13 @@ func verifVar(scope *ReferenceScope, name string, v value.Primary) {
 		panic("verifVar: " + err.Error())
 	}
 }
+
+// stored returns the published temporary table object (not a copy).
+func verifStored(scope *ReferenceScope, name string) *View {
+	v, ok := scope.Blocks[0].TemporaryTables.Load(name)
+	if !ok {
+		panic("verifStored: no table " + name)
+	}
+	return v
+}
+
